@@ -76,6 +76,11 @@ def run(ctx):
         except Exception as e:
             ctx.violation('engine-raises', 'greedy_decode_ctc raised %r' % (e,), dict(scores=arr.tolist()))
             continue
+        eng = list(eng)
+        if len(eng) != N:
+            ctx.violation('engine-batch-length', 'greedy_decode_ctc returned %d transcriptions for a batch of %d lines' % (len(eng), N),
+                          dict(scores=arr.astype(int).tolist()), eng)
+            eng = eng + [None] * (N - len(eng))
         dec = GreedyDecoder(chars + [BLANK_SYMBOL])
         for n in range(N):
             ctx.evaluations += 1
@@ -130,6 +135,15 @@ def replay(data):
     from pero_ocr.ocr_engine.pytorch_ocr_engine import greedy_decode_ctc
     for v in data.get('violations', []):
         inp = v['input']
+        if 'scores' in inp:
+            arr = np.array(inp['scores'], dtype=float)
+            chars = [chr(97 + i) for i in range(arr.shape[1] - 1)]
+            try:
+                out = greedy_decode_ctc(torch.from_numpy(arr.copy()).float(), chars + ['\u200b'])
+                print('replay', v['key'], 'batch of', arr.shape[0], 'lines ->', list(out))
+            except Exception as e:
+                print('replay', v['key'], 'raises', repr(e))
+            continue
         fr = np.array(inp['frames'], dtype=float)
         C = inp['C']
         chars = [chr(97 + i) for i in range(C - 1)]
